@@ -871,9 +871,9 @@ def search(tier, hints):
                 m = c20_audit.trim_property(w, h["ess"], h["bins"])[0]
                 if m and add("trim", m, w_hex=h["w_hex"], ess=h["ess"], bins=h["bins"]):
                     return found
-            elif h.get("kind") in ("site-train", "site-flow", "site-metric"):
+            elif h.get("kind") in ("site-train", "site-flow", "site-metric", "site-train-seq", "trim-kw"):
                 r = c20_audit.replay_site(h)
-                if r["fails"] and add(h["kind"], r["detail"], **{k: h[k] for k in ("seed", "clustering", "w_hex", "beta", "vv", "d") if k in h}):
+                if r["fails"] and add(h["kind"], r["detail"], **{k: h[k] for k in ("seed", "clustering", "w_hex", "ws_hex", "beta", "vv", "d", "ess", "bins", "extra") if k in h}):
                     return found
             elif h.get("kind") == "volvar-ref":
                 m = oracle_volvar(h["x"], h["w"], exact=True)
@@ -964,7 +964,7 @@ def replay(obj):
         msg = oracle_cess([hex2f(t) for t in f["logw_hex"]])
     elif kind == "trim":
         msg = c20_audit.trim_property([hex2f(t) for t in f["w_hex"]], f["ess"], f["bins"])[0]
-    elif kind in ("site-train", "site-flow", "site-metric"):
+    elif kind in ("site-train", "site-flow", "site-metric", "site-train-seq", "trim-kw"):
         return c20_audit.replay_site(f)
     elif kind == "volvar":
         msg = oracle_volvar(f["x"], f.get("w"), f.get("A"), f.get("b"), f.get("c"), exact=bool(f.get("exact")))
